@@ -399,6 +399,9 @@ impl Check for C14 {
         h.str(&case.template);
         h.str(&format!("{:?}", case.faults));
         h.u64(cfg_idx as u64);
+        h.u64(r.outcome);
+        h.u64(r.calls);
+        h.u64(r.panics.len() as u64 + 1000 * r.meters.len() as u64);
         rep.trace_hash = h.finish();
         rep.nontrivial = r.outcome != self.base_outcome[&(idx, cfg_idx)];
         if rep.nontrivial {
